@@ -14,7 +14,7 @@
 import ast
 import re
 
-from sa.interp import alpha, expand_bound, Interp, Scenario, Sym, Const, Bytes, render, render_items, merge_consts
+from sa.interp import alpha, expand_bound, Interp, Scenario, Sym, Const, Bytes, Obj, render, render_items, merge_consts
 from sa.loader import AnalysisError, dotted
 from sa.cfg import CFG, calls_in, own_exprs
 from sa import guards, codec, keyaction, tables
@@ -386,8 +386,10 @@ def check_clear(rep, prog):
                 if ft != '%s.__setattr__' % me and args[:1] != [me]:
                     continue
                 found.append('%s(%s)' % (ft, ', '.join(expand_bound(s, x) for x in args)))
-                if len(a) == 2 and a[0] in s.bound and s.bound[a[0]] in ('%s.__privfields__' % me, 'type(%s).__privfields__' % me) and a[1] == 'MPI(0)':
-                    hit = True
+                if len(a) == 2 and a[0] in s.bound and s.bound[a[0]] in ('%s.__privfields__' % me, 'type(%s).__privfields__' % me):
+                    zero = s.env.get(a[1])         # a locally built object is rendered by the local's name: look at what it is
+                    if (zero.text if isinstance(zero, Obj) else a[1]) == 'MPI(0)':
+                        hit = True
         ok = ok and hit
     rep.check(ok, 'C06.2', 'PrivKey.clear', 'zeroes %s' % (sorted(set(found)) or '<nothing>'), 'clear() must overwrite every private field with the zero placeholder',
               where=cl.where, expected='for field in self.__privfields__: setattr(self, field, MPI(0)) on every path', found=sorted(set(found)))
@@ -476,7 +478,8 @@ def check_encrypt_keyblob(rep, prog):
         exp_rest = ['%s.derive_key(%s)' % (S2K, pw), enc_alg, '%s.gen_iv()' % enc_alg]
         dk = prog.method('pgpy.packet.fields', 'String2Key', 'derive_key')
         a = [a_.replace('derive_key(%s=' % dk.params[1], 'derive_key(') for a_ in a]
-        rep.check(a[1:] == exp_rest and iv == exp_rest[2] and not enc[0][2], 'C06.3', 'PrivKey.encrypt_keyblob', '_encrypt key/alg/iv %s' % a[1:],
+        n_iv = sum(1 for e in s.events if e[0] == 'call' and e[1].endswith('.gen_iv'))     # one IV: the one stored is the one used
+        rep.check(a[1:] == exp_rest and iv == exp_rest[2] and not enc[0][2] and n_iv == 1, 'C06.3', 'PrivKey.encrypt_keyblob', '_encrypt key/alg/iv %s' % a[1:],
                   'encryption uses the passphrase-derived key, the chosen cipher and the IV stored in the specifier', where=fi.where,
                   expected='%s with s2k.iv = %s' % (exp_rest, exp_rest[2]), found='%s with s2k.iv = %s' % (a[1:], iv))
         # the key is derived once the specifier is complete (salt, count, hash, type): derive_key reads them
@@ -569,7 +572,8 @@ def check_decrypt_order(rep, prog):
                 continue
             first_store = next((i for i, e in enumerate(s.events) if e[0] == 'store' and e[1].startswith(pre) and e[1][len(pre):] in pf), None)
             base_idx = [i for i, e in enumerate(s.events) if e[0] == 'call' and
-                        (e[1] in ('super:%s' % bd.qualname, '%s.decrypt_keyblob' % base.name)) and e[2][-1:] == [pw]]
+                        (e[1] in ('super:%s' % bd.qualname, '%s.decrypt_keyblob' % base.name)) and
+                        (positional(bd, e[2][1:] if e[1] == '%s.decrypt_keyblob' % base.name and e[2][:1] == [me_] else e[2], e[3]) == [pw])]
             base_call = base_idx[0] if base_idx else None
             key = ('order', base_call is not None and (first_store is None or base_call < first_store))
             if key not in seen:
@@ -578,10 +582,12 @@ def check_decrypt_order(rep, prog):
                           'base check %s the first secret store' % ('precedes' if key[1] else 'does not precede'),
                           'the checked decryption must come first: a wrong passphrase must raise before any secret field is written', where=f.where)
             # what is stored comes from the checked plaintext
+            vals = {(p_, l_): (v_.text if isinstance(v_, Obj) else t_) for p_, t_, l_, v_ in s.stores}   # a local object shows as what it is
             for e in s.events:
                 if e[0] == 'store' and e[1].startswith(pre) and e[1][len(pre):] in pf and (e[1], e[2]) not in seen:
                     seen.add((e[1], e[2]))
-                    rep.check(re.search(r'decrypt_keyblob\((?:%s, )?%s\)' % (re.escape(me_), re.escape(pw or '')), e[2]) is not None, 'C06.4',
+                    e = (e[0], e[1], vals.get((e[1], e[3]), e[2]), e[3])
+                    rep.check(base_call is not None and re.search(r'(?<![\w])(?:super\(%s\)|%s)\.decrypt_keyblob\(' % (base.name, base.name), e[2]) is not None, 'C06.4',
                               '%s.decrypt_keyblob' % c.name, '%s = %s' % (e[1].replace(pre, 'self.'), e[2][:80]),
                               'secret fields must be read from the checked plaintext', where='%s:%d' % (f.module.relpath, e[3]))
 
